@@ -224,6 +224,12 @@ impl Memory {
     ///
     /// This takes care of the underlying memory sections automatically.
     pub fn set_memory(&mut self, address: u64, data: Vec<u8>, permissions: MemoryPermissions) {
+        // Writing an empty region changes nothing. Inserting an empty section
+        // would replace, or split and shadow, the section already at `address`.
+        if data.is_empty() {
+            return;
+        }
+
         // All overlapping memory sections need to be adjusted
         // Start by collecting addresses and lengths
         let als = self
